@@ -46,6 +46,18 @@ def declare_jerk():
 def declare_area_units():
     global HM2
     HM2 = Area.new_unit("hm2", define_as=Decimal(10000) * SQUARE_METRE)
+# a type without reference unit whose units are derived later (Money / Mass)
+from quantity.money import Money
+EUR = Money.register_currency("EUR")
+PricePerMass = None
+def declare_price():
+    global PricePerMass
+    if PricePerMass is None:
+        PricePerMass = QuantityMeta("PricePerMass", (Quantity,), {}, define_as=Money / Mass)
+def derive_price_unit():
+    global EUR_PER_KG
+    declare_price()
+    EUR_PER_KG = PricePerMass.derive_unit_from(EUR, KILOGRAM)
 '''
 
 # operations (label, python expression)
@@ -67,8 +79,13 @@ OPS = [
     ("kb/s*ms", "(3000 * KILOBIT_PER_SECOND) * (Decimal('0.001') * SECOND)"),
     ("s*Hz", "(2 * SECOND) * (3 * KILOHERTZ)"),
     ("J/N", "(10 * KILOWATT_HOUR) / (4 * NEWTON)"),
+    ("EUR/kg", "(6 * EUR) / (2 * KILOGRAM)"),
+    ("EUR/g", "(6 * EUR) / (1000 * GRAM)"),
+    ("unit EUR/g", "EUR / GRAM"),
+    ("EUR/kg*g", "((6 * EUR) / (2 * KILOGRAM)) * (500 * GRAM)"),
 ]
-DECLS = ["declare_momentum()", "declare_jerk()", "declare_area_units()"]
+DECLS = ["declare_momentum()", "declare_jerk()", "declare_area_units()",
+         "declare_price()", "derive_price_unit()"]
 
 
 def script(root, steps):
